@@ -109,9 +109,26 @@ def parseAddr (s : String) : Option Addr :=
 def parseTime (s : String) : Option GoTime :=
   if s = "z" then some none else s.toInt?.map some
 
-/-- `<ip>:<port>/<queryport>/<status>/<version>/<refreshedNs|z>`; info and details are the zero values -/
+/-- player `j` of a planted record (`storeops.ParseServer`, part `p<K>`): `details.Player{Name: "p<j>@<addr>", Score: j + port % 7}`, every other
+field zero, in the field order of the generated schema -/
+def plantedPlayer (a : Addr) (j : Nat) : Fields :=
+  Facts.detailsPlayerSchema.map fun (name, _, kind, _) =>
+    if name = "Name" then Val.str (Bytes.ofAscii s!"p{j}@{a.render}")
+    else if name = "Score" then Val.int (j + a.port % 7)
+    else if kind = 1 then Val.bool false else if kind = 2 then Val.str [] else Val.int 0
+
+/-- `<ip>:<port>/<queryport>/<status>/<version>/<refreshedNs|z>`; info and details are the zero values; optional `/p<K>`: K planted players -/
 def parseServer (s : String) : Option Server :=
   match s.splitOn "/" with
+  | [a, qp, st, ver, rf, pk] => do
+    let a ← parseAddr a
+    let qp ← qp.toInt?
+    let st ← st.toNat?
+    let ver ← ver.toInt?
+    let rf ← parseTime rf
+    let k ← if pk.startsWith "p" then (pk.drop 1).toNat? else none
+    pure { addr := a, queryPort := qp, status := BitVec.ofNat 9 st, info := zeroInfo,
+           details := ⟨zeroInfo, (List.range k).map (plantedPlayer a), []⟩, refreshedAt := rf, version := ver }
   | [a, qp, st, ver, rf] => do
     let a ← parseAddr a
     let qp ← qp.toInt?
@@ -121,8 +138,16 @@ def parseServer (s : String) : Option Server :=
     pure { addr := a, queryPort := qp, status := BitVec.ofNat 9 st, info := zeroInfo, details := ⟨zeroInfo, [], []⟩, refreshedAt := rf, version := ver }
   | _ => none
 
+/-- name~score of a player record, as `storeops.RenderServer` prints it -/
+def renderPlayerBrief (f : Fields) : String :=
+  let named := Facts.detailsPlayerSchema.map (·.1) |>.zip f
+  let name := match named.lookup "Name" with | some (.str b) => Bytes.toHexTok b | _ => "?"
+  let score := match named.lookup "Score" with | some (.int n) => toString n | _ => "?"
+  s!"{if name = "-" then "" else name}~{score}"
+
 def renderServer (s : Server) : String :=
-  s!"{s.addr.render}/{s.queryPort}/{s.status.toNat}/{s.version}/{renderTime s.refreshedAt}"
+  s!"{s.addr.render}/{s.queryPort}/{s.status.toNat}/{s.version}/{renderTime s.refreshedAt}" ++
+    (if s.details.players.isEmpty then "" else "/players=" ++ "+".intercalate (s.details.players.map renderPlayerBrief))
 
 /-- resolver behaviours of `storeops.Resolver` -/
 def resolverOf (name : String) (caller : Server) : Option Resolver :=
